@@ -395,6 +395,9 @@ def main():
     cov['distinct_nontrivial'] = max(distinct_by_build.values()) if distinct_by_build else 0
     cov['distinct_nontrivial_by_build'] = distinct_by_build
     cov['rule'] = rule
+    if not samples and variants:
+        # no harness-provided sample (should not happen): at least show what was run
+        samples = [{'variant': k, 'executions': v} for k, v in list(variants.items())[:3]]
     cov['samples'] = samples
     cov['mechanisms'] = mech
     not_reached = [m for m in spec.get('mechanisms_required', []) if not mech.get(m)]
